@@ -542,6 +542,18 @@ func (p *OAuthProxy) Proxy(rw http.ResponseWriter, req *http.Request) {
 	tags := []string{"action:proxy"}
 	var err error
 
+	// The identity headers are asserted by the proxy only. Drop whatever the client sent
+	// so that a request that skips authentication (or a session without an access token)
+	// cannot carry client-chosen values to the upstream.
+	for _, header := range []string{
+		"X-Forwarded-User",
+		"X-Forwarded-Email",
+		"X-Forwarded-Groups",
+		"X-Forwarded-Access-Token",
+	} {
+		req.Header.Del(header)
+	}
+
 	// If the request is explicitly whitelisted, we skip authentication
 	if p.IsWhitelistedRequest(req) {
 		tags = append(tags, "auth_type:whitelisted")
